@@ -473,7 +473,7 @@ class CHText:
             return self[:desired_len]
         if len_diff > 0:
             return self + " "*len_diff
-        return self
+        return type(self)(self)  # a copy: the result must not alias self
 
     def __format__(self, format_spec) -> str:
         """Support formatted printing.
